@@ -47,6 +47,7 @@ class GenePointer(GTFPointer):
         if len(lines) > 1:
             raise ValueError(f"Multiple lines found for gene {self.key}")
         record = GtfIO.line_to_seq_feature(lines[0])
+        record.source = self.source
         record.__class__ = GeneAnnotationModel
         record.exons = []
         record.transcripts = list(self.transcripts)
@@ -88,6 +89,7 @@ class TranscriptPointer(GTFPointer):
             if tx_id != self.key:
                 raise ValueError("Loaded transcript do not match.")
             record.id = tx_id
+            record.source = self.source
             tx_model.add_record(feature, record)
         tx_model.sort_records()
         return tx_model
